@@ -160,6 +160,10 @@ def judge_call(rec, tree, reqs, capacity, prop_clauses):
     obs = sv.norm_outcome('value' if kind == 'value' else 'exc', rec['payload'])
     why = sv.match_expected(obs, exp)
     if why is None:
+        if rec['timeout'] == 'long' and rec['t1'] - rec['t0'] > 100.0 and not rec.get('untimed'):
+            # all generated service times, batch waits and call timeouts are milliseconds: a request that comes back after minutes of
+            # virtual time was not served when the server could serve it, it was let in only because its own wait for a slot expired
+            return ('served_only_at_deadline', f'request {rid} (unbounded timeout) was answered correctly, but only after {rec["t1"] - rec["t0"]:.1f}s virtual: it sat waiting next to a server that had room')
         return None
     return ('wrong_outcome', f'request {rid}: {why}')
 
